@@ -1,6 +1,6 @@
 (* C12 — Remote delivery integrity: exactly once, to the addressee, unchanged.
    Property theorems only; model in Proto/Model.v, proofs in Proto/Proofs.v. *)
-From Ergo Require Import Common.Base Proto.Model Proto.Proofs.
+From Ergo Require Import Common.Base Proto.Model Proto.Proofs Proto.Redial Proto.RedialProofs.
 Local Open Scope Z_scope.
 
 (* every field of every message kind (addressee, sender, priority, reference, important flag,
@@ -71,6 +71,49 @@ Theorem C12_exactly_once : forall (compress : Z -> bytes -> bytes) (decompress :
       map (recv decompress 2) frames = map Some (accepted_msgs compress peer_max l).
 Proof. exact exactly_once. Qed.
 Print Assumptions C12_exactly_once.
+
+(* dialing side of a pool link: serve(conn, tail) sees tail ++ socket bytes; every split of that
+   stream into (tail, reads) - the tail may end inside a frame - gives the same frames and state *)
+Theorem C12_tail_split_irrelevant : forall maxsize e1 e2,
+  e_stream e1 = e_stream e2 -> serve_state maxsize e1 = serve_state maxsize e2.
+Proof. exact serve_split_irrelevant. Qed.
+Print Assumptions C12_tail_split_irrelevant.
+
+(* a socket whose stream is whole frames followed by the beginning of a frame (the drop cut it):
+   exactly the whole frames, in order; the cut frame is lost with the link *)
+Theorem C12_epoch_frames : forall maxsize e fs,
+  (exists p, e_stream e = concat fs ++ p /\ Forall (good_frame maxsize) fs /\
+             (exists f q, good_frame maxsize f /\ f = p ++ q /\ q <> [] \/ p = [])) ->
+  serve maxsize e = fs.
+Proof.
+  intros maxsize e fs (p & Hs & Hall & Hp). apply serve_epoch. exists p. split; [exact Hs|]. split; [exact Hall|].
+  destruct Hp as (f & q & [(Hf & Hpq & Hq) | ->]).
+  - exact (prefix_incomplete maxsize f p q Hf Hpq Hq).
+  - apply incomplete_nil.
+Qed.
+Print Assumptions C12_epoch_frames.
+
+(* Join's re-dial loop, any number of drop / re-dial epochs, any (tail, reads) split of each: the
+   link delivers the whole frames of the epochs' streams, each once, in order - up to and including the
+   first re-dialed socket that was closed without a whole frame (a refused join ends the loop); if
+   there is none, all of them *)
+Theorem C12_redial_exactly_once : forall maxsize eps fss,
+  Forall2 (epoch_yields maxsize) eps fss ->
+  link_received maxsize eps = concat (served false fss) /\
+  (Forall (fun fs => fs <> []) (tl fss) -> link_received maxsize eps = concat fss).
+Proof.
+  intros maxsize eps fss H. split; [now apply redial_exact_general | intros Hne; now apply redial_exact].
+Qed.
+Print Assumptions C12_redial_exactly_once.
+
+(* the loop that serves the re-dialed socket with the tail of the first join again delivers the first
+   frames a second time and drops what the new handshake left over: 1 2 3 4 5 1 2 7 8 *)
+Theorem C12_redial_first_tail_refuted :
+  exists eps fss, Forall2 (epoch_yields 0) eps fss /\ Forall (fun fs => fs <> []) (tl fss) /\
+    link_received_first_tail 0 eps = map fr [1; 2; 3; 4; 5; 1; 2; 7; 8] /\
+    link_received_first_tail 0 eps <> concat fss /\ ~ NoDup (link_received_first_tail 0 eps).
+Proof. exact redial_first_tail_refuted. Qed.
+Print Assumptions C12_redial_first_tail_refuted.
 
 (* important delivery: the acknowledgement names the sender's reference and carries the result *)
 Theorem C12_important : forall m code rpay,
